@@ -32,6 +32,9 @@ func NewCollection(options ...Option) *Collection {
 	conf := computeConfig(options...)
 	initialItems := make(map[string]*item)
 	for k, v := range conf.initialRecords {
+		if conf.idInterceptor != nil {
+			k = conf.idInterceptor(k) // stored like an added item, or Get/Update/Delete could not reach it
+		}
 		initialItems[k] = &item{body: v, changeTime: conf.clock.Now()}
 	}
 	conf.initialRecords = nil // so the gc can collect them
